@@ -265,7 +265,7 @@ class CallsMixin:
         if missing:
             raise Unsupported('callee %s writes %s but its contract has no matching assigns clause (frame not declared)' % (key, ', '.join(missing)))
 
-    def apply_contract(self, st, c, key, recv, argv, e, assumed):
+    def apply_contract(self, st, c, key, recv, argv, e, assumed, havoc_oids=()):
         line = e.get('line')
         if assumed:
             self.assumed.add(key)
@@ -312,6 +312,23 @@ class CallsMixin:
                 st.assume(z3.Or(pos) if len(pos) > 1 else pos[0])
                 raise PanicEx('callee %s may panic' % key)
         self.bump_top(st)             # the callee may allocate
+        if havoc_oids and self.frame and self.frame.contract:
+            for cl in self.frame.contract.get('after'):
+                for g in re.findall(r'\bghost\s+(\w+)\s*\(', cl.text):
+                    cur = self.ghost_read(st, g, z3.IntVal(0))
+                    arr = st.ghost[('gheap', g)]
+                    st.ghost[('gheap', g)] = fresh('hvG_' + g, arr.sort())
+        for oid in havoc_oids:        # captured variables a recursive closure call assigns
+            tid = self.frame.objtypes.get(oid)
+            if oid in st.env and tid is not None:
+                nv = self.lay.fresh(tid, 'cv%s' % oid)
+                for w in self.lay.wf(nv, tid): st.assume(w)
+                self.bound_value(st, nv, tid)
+                bx = st.meta.get('boxed')
+                if bx and oid in bx:
+                    self.store_ptr(st, bx[oid], nv)
+                else:
+                    st.env[oid] = nv
         # havoc what the callee assigns
         for cl in c.get('assigns'):
             for target in speclang.split_top(cl.text, ','):
@@ -671,10 +688,22 @@ class CallsMixin:
         matched = False
         if self.frame and self.frame.contract:
             for cl in self.frame.contract.get('oncall'):
+                m = re.match(r'(\w+)\s*:\s*self\s*$', cl.text)
+                if m and m.group(1) == nm:
+                    # `oncall f: self` -- f is the variable holding the function literal under verification: the call is a
+                    # recursive one and is replaced by the literal's own contract (partial correctness); the captured
+                    # variables the body assigns are havocked
+                    decl = self.frame.decl
+                    vs, fs, calls = set(), set(), []
+                    self.assigned_in(decl.get('Body'), vs, fs, calls)
+                    cap = {o['id'] for o in decl.get('captured', []) or []}
+                    self.funcs.setdefault(self.frame.key, decl)
+                    return self.apply_contract(st, self.frame.contract, self.frame.key, None, argv, e, assumed=True, havoc_oids=sorted(vs & cap))
+            for cl in self.frame.contract.get('oncall'):
                 m = re.match(r'(\w+)\s*:\s*(.*)$', cl.text, re.S)
                 if m and m.group(1) == nm:
                     matched = True
-                    if m.group(2).strip() != 'maypanic':
+                    if m.group(2).strip() != 'maypanic' and not m.group(2).strip().startswith('returns '):
                         self.run_hint(st, SpecEnv(st, binds, st.entry), m.group(2), cl)
         maypanic = False
         if self.frame and self.frame.contract:
@@ -694,7 +723,17 @@ class CallsMixin:
         self.bump_top(st)
         results = [self.lay.fresh(t, 'cb') for t in rtypes]
         for r, t in zip(results, rtypes):
+            for w in self.lay.wf(r, t): st.assume(w)
             self.bound_value(st, r, t)
+        if self.frame and self.frame.contract:
+            # `oncall f: returns P(a0.., r0..)`: an ASSUMPTION about what the callback returns (listed in evidence)
+            rb = dict(binds)
+            for i, r in enumerate(results): rb['r%d' % i] = r
+            for cl in self.frame.contract.get('oncall'):
+                m = re.match(r'(\w+)\s*:\s*returns\s+(.*)$', cl.text, re.S)
+                if m and m.group(1) == nm:
+                    st.assume(self.sev_bool(SpecEnv(st, rb, st.entry), speclang.parse_expr(m.group(2))))
+                    self.assumed.add('callback %s returns: %s' % (nm, m.group(2).strip()))
         return results[0] if len(results) == 1 else TupleV(results)
 
     # -- conversions ------------------------------------------------------------------------------
@@ -836,7 +875,15 @@ class CallsMixin:
             self.array_copy(st, d, s, n)
             return self.mk_int(n, e.get('t'))
         if name == 'append':
-            return self.append(st, args, e)
+            res = self.append(st, args, e)
+            if self.frame and self.frame.contract and self.frame.contract.get('after'):
+                # `after append: <hint>` (ghost bookkeeping at the point where an element is added; runs before the
+                # result is assigned, so the old length is still visible)
+                for cl in self.frame.contract.get('after'):
+                    m = re.match(r'append\s*:\s*(.*)$', cl.text, re.S)
+                    if m:
+                        self.run_hint(st, SpecEnv(st, {}, st.entry), m.group(1), cl)
+            return res
         if name == 'delete':
             m = self.ev(st, args[0]); kx = self.mapkey(st, self.ev(st, args[1]))
             m2 = MapV(z3.Store(m.dom, kx, z3.BoolVal(False)), m.vals, m.ktid, m.vtid, m.isnil)
@@ -890,9 +937,14 @@ class CallsMixin:
             # reallocation: fresh backing array, prefix copied, capacity at least newlen
             arrs = [fresh('app.arr', a.sort()) for a in s.arrs]
             k = fresh('k!ap')
+            # (the new array is indexed like the old one -- the position of a slice inside its backing array is not
+            # observable -- so that the copied prefix is the same absolute index range in both arrays and facts about
+            # the old elements transfer by matching either side)
             for nw, oa in zip(arrs, s.arrs):
-                st.assume(z3.ForAll([k], z3.Implies(z3.And(0 <= k, k < s.len), z3.Select(nw, k) == z3.Select(oa, s.off + k))))
-            off = z3.IntVal(0); cap = fresh('app.cap'); st.assume(cap >= newlen)
+                body = z3.Implies(z3.And(s.off <= k, k < s.off + s.len), z3.Select(nw, k) == z3.Select(oa, k))
+                from .gospec import mk_forall
+                st.assume(mk_forall([k], body, [z3.Select(nw, k), z3.Select(oa, k)]))
+            off = s.off; cap = fresh('app.cap'); st.assume(cap >= newlen)
             st.meta['fresh_arrs'] = set(st.meta.get('fresh_arrs', set())) | {x.get_id() for x in arrs}
         res = SliceV(arrs, off, newlen, cap, etid, z3.BoolVal(False) if not simp_bool(cnt == 0) else s.isnil)
         if src[0] == 'vals':
